@@ -6,10 +6,10 @@ import (
 	"github.com/pion/rtcp"
 )
 
-const numUnits = 12
+const numUnits = 13
 
 var unitNames = [...]string{"Header", "ReceptionReport", "SourceDescriptionChunk", "SourceDescriptionItem",
-	"RunLengthChunk", "StatusVectorChunk", "RecvDelta", "Chunk", "CCFeedbackReportBlock.String", "enum.String", "raw-decode", "NewCNAMESourceDescription"}
+	"RunLengthChunk", "StatusVectorChunk", "RecvDelta", "Chunk", "CCFeedbackReportBlock.String", "enum.String", "raw-decode", "NewCNAMESourceDescription", "receive-loop"}
 
 //go:noinline
 func vopUnitMarshal(m interface{ Marshal() ([]byte, error) }) ([]byte, error) { return m.Marshal() }
@@ -112,6 +112,69 @@ func unitOp(res *opResult, kind int, seed uint64) {
 		res.addStr(rtcp.SDESType(r.intn(12)).String())
 		res.addStr(rtcp.BlockTypeType(r.intn(10)).String())
 		res.addStr(rtcp.TTLorHopLimitType(r.intn(5)).String())
+	case 12:
+		// A receive loop: one buffer, refilled in place with successive datagrams and decoded each time, the
+		// way a socket reader uses the package.  What a decoder returns may depend on the octets only, not on
+		// the identity or the history of the buffer: every datagram is decoded from a fresh copy as well.
+		n := 2 + r.intn(3)
+		base := genPacket(r.intn(numKinds), r.u64())
+		grams := make([][]byte, 0, n)
+		longest := 0
+		for i := 0; i < n; i++ {
+			var g []byte
+			var err error
+			guarded(res, func() { g, err = vopUnitMarshal(base) })
+			if err != nil || len(g) == 0 || r.chance(6) {
+				g = r.spareBytes(4 * (1 + r.intn(12)))
+			} else {
+				g = append([]byte(nil), g...)
+				if r.chance(4) {
+					g = corruptCopy(g, r.u64())
+				}
+			}
+			grams = append(grams, g)
+			if len(g) > longest {
+				longest = len(g)
+			}
+			tweakPacket(base, r.u64()) // the next datagram is a near twin: same length more often than not
+		}
+		buf := make([]byte, longest)
+		typed := r.chance(3)
+		for _, g := range grams {
+			copy(buf, g)
+			in := buf[:len(g):len(g)]
+			fresh := append([]byte(nil), g...)
+			var d1, d2 string
+			var e1, e2 error
+			nparts := len(res.parts)
+			guarded(res, func() {
+				if typed {
+					p1, p2 := newOfKind(dispatchKind(in)), newOfKind(dispatchKind(fresh))
+					e1 = vopUnmarshalTyped(p1, in)
+					d1 = dumpSem(p1, false)
+					e2 = vopUnmarshalTyped(p2, fresh)
+					d2 = dumpSem(p2, false)
+				} else {
+					l1, err1 := vopUnmarshalAll(in)
+					d1, e1 = dumpSem(l1, false), err1
+					l2, err2 := vopUnmarshalAll(fresh)
+					d2, e2 = dumpSem(l2, false), err2
+				}
+			})
+			if len(res.parts) != nparts {
+				continue // a decoder panicked (recorded): the second decode of the pair never ran
+			}
+			res.addDump(d1)
+			res.addErr(e1)
+			res.addErr(e2) // texts are rendered and compared with the other worlds' after the join
+			if !res.incons && (d1 != d2 || (e1 == nil) != (e2 == nil)) {
+				res.incons = true
+				res.pre, res.post = d2, d1
+				if d1 == d2 {
+					res.pre, res.post = "error == nil: "+boolText(e2 == nil), "error == nil: "+boolText(e1 == nil)
+				}
+			}
+		}
 	case 11:
 		// the one constructor of the package: a fresh packet each time, nothing shared between calls
 		cname := r.text(r.intn(40))
@@ -148,6 +211,13 @@ func unitOp(res *opResult, kind int, seed uint64) {
 			res.pre, res.post = pre, post
 		}
 	}
+}
+
+func boolText(b bool) string {
+	if b {
+		return "true"
+	}
+	return "false"
 }
 
 //go:noinline
